@@ -22,7 +22,7 @@ use std::{
 	time::{Duration, Instant},
 };
 
-type Key = (u8, Vec<u8>);
+pub type Key = (u8, Vec<u8>);
 
 struct Shared {
 	ptr: *mut AtomicU64,
@@ -46,7 +46,7 @@ impl Shared {
 	}
 }
 
-fn cfg_of(variant: u64) -> DbCfg {
+pub fn cfg_of(variant: u64) -> DbCfg {
 	let growth = (variant / 2) % 3 == 2;
 	let mut c = DbCfg::new(vec![
 		col(false, growth, false, false, if variant % 5 == 4 { CompressionType::Lz4 } else { CompressionType::NoCompression }),
@@ -60,7 +60,7 @@ fn cfg_of(variant: u64) -> DbCfg {
 	c
 }
 
-fn key_of(seed: u64, variant: u64, colid: u8, idx: u64) -> Vec<u8> {
+pub fn key_of(seed: u64, variant: u64, colid: u8, idx: u64) -> Vec<u8> {
 	let growth = (variant / 2) % 3 == 2;
 	if colid == 0 && growth {
 		// identity-hashed keys of one 16-bit page: the index grows while the history runs
@@ -74,7 +74,7 @@ fn key_of(seed: u64, variant: u64, colid: u8, idx: u64) -> Vec<u8> {
 }
 
 /// Transaction number `i` (1-based) of the history `seed`: the same in the child and in the parent.
-fn tx_of(seed: u64, variant: u64, i: u64) -> Vec<(Key, Option<Vec<u8>>)> {
+pub fn tx_of(seed: u64, variant: u64, i: u64) -> Vec<(Key, Option<Vec<u8>>)> {
 	let mut r = Rng::new(seed ^ i.wrapping_mul(0xD1B54A32D192ED03));
 	let mut tx: Vec<(Key, Option<Vec<u8>>)> = vec![];
 	for _ in 0..r.range(1, 5) {
@@ -100,7 +100,7 @@ fn tx_of(seed: u64, variant: u64, i: u64) -> Vec<(Key, Option<Vec<u8>>)> {
 	tx
 }
 
-fn to_ops(tx: &[(Key, Option<Vec<u8>>)]) -> Vec<(u8, Operation<Vec<u8>, Vec<u8>>)> {
+pub fn to_ops(tx: &[(Key, Option<Vec<u8>>)]) -> Vec<(u8, Operation<Vec<u8>, Vec<u8>>)> {
 	tx.iter()
 		.map(|((c, k), v)| match v {
 			Some(v) => (*c, Operation::Set(k.clone(), v.clone())),
